@@ -11,6 +11,34 @@ FLOCQ = ("Axioms (standard library, via Flocq's Reals): ClassicalDedekindReals.s
          "FunctionalExtensionality.functional_extensionality_dep, Classical_Prop.classic - only under theorems that mention float64. ")
 
 CLAIMED = {
+    "C03": dict(
+        text="Full, unbounded on the model: for every accepted event trace of the join/unite program-counter machine (all three variants; ticks at arbitrary instants, arbitrary consumer delays, copy and no-copy) the concatenation of the emitted slices plus what the machine still holds equals the concatenation of the received items (C03_join_concat_prefix), hence equality at termination; no slice is empty, join slices have at most JoinSize elements, a unite slice exceeds JoinSize only if it is one forwarded input slice of at least JoinSize. The machine is tied to v2 join, v2 unite and v1 join by exact comparison of fake-time traces (testing/synctest) on random timed scenarios, and the clauses are monitored on the implementation.",
+        ref="5.C03", note=STD + "No axioms. Modelled, not verified: Go channel/select/ticker semantics as in DESIGN.md section 4; v1 Stop events are excluded from C03 (covered by C16).",
+        technique="Coq invariant proof over a pc-machine + fake-time differential correspondence"),
+    "C04": dict(
+        text="Full, unbounded on the model: for every accepted timed trace of the limit machine (arbitrary arrival times, arbitrary consumer delays, arbitrary wake latencies >= 0) the number of writes by time tau is at most Quantity*(floor((tau-t0)/Interval)+1) and every window [a,a+W] holds at most Quantity*(floor(W/Interval)+2) writes (C04_cumulative, C04_window; the +2 is tight). Output events are the discipline's writes; the cumulative bound therefore also holds for any consumer's receive times. Tied to v2/limit by exact fake-time trace comparison; both bounds monitored on the implementation (the window bound for consumers that do not pause).",
+        ref="5.C04", note=STD + "No axioms. Assumes time.Sleep never returns early and a monotone clock.",
+        technique="Coq invariant proof over a timed pc-machine + fake-time differential correspondence"),
+    "C08": dict(
+        text="Partial (memory is abstracted to the model's buffer field): proved for every state/trace that while the consumer owns a no-copy slice (from the write until the release) the only enabled steps are the release, the recording of a Stop call and (v1) giving up the wait, none of which writes the buffer or emits; that in v1 after a Stop before the release the buffer is never written and nothing is emitted in any continuation (C08_unreleased_forever); that copy mode never waits for a release. That copy-mode outputs are freshly allocated and never touched is decided by the correspondence on the aliasing pattern of base pointers and by monitors: retained slices are overwritten by the consumer and re-read after further traffic, timeouts and (v1) Stop.",
+        ref="5.C08", note=STD + "No axioms. Trusted: slices.Clone allocates fresh memory, append within capacity does not reallocate (both observed through the pointer projection).",
+        technique="Coq structural lemmas over the pc-machine + pointer-alias correspondence + retained-slice monitors"),
+    "C09": dict(
+        text="Full on the model: without a timeout the output of join is exactly the chunking of the input into JoinSize pieces and the output of unite is exactly the independent greedy specification (C09_*_greedy_untimed, with uniqueness of the chunking); with ticks every emission carries its cause and Full/Overflow/Forwarded emissions are maximal (C09_cause_sound); a slice cut short by the timeout is written no earlier than Timeout after every earlier write and after creation (C09_short_not_early), for all traces. Tied to the three implementations by exact fake-time comparison of slice lengths and inter-delivery gaps; monitored with a sound lower bound of the previous write time.",
+        ref="5.C09", note=STD + "No axioms. 'Delivered' is the discipline's write to the output (in no-copy mode the timeout is counted from the release, which is later).",
+        technique="Coq refinement to a greedy specification + timed invariant + fake-time differential correspondence"),
+    "C10": dict(
+        text="Full on the timed model under the stated environment hypotheses: with an ideal ticker (every grid tick taken in time order) and a consumer/releaser that never makes the discipline wait, every element is written at most Timeout + interval after it was accepted, for every arrival pattern (C10_residence_bound), and interval*floor(100/inaccuracy) <= Timeout, i.e. Timeout+interval <= Timeout*(1+1/floor(100/inaccuracy)) (C10_interval_bound_sum); constructor error cases characterised. Tied to the implementations by exact fake-time comparison of per-element residence times; bound monitored in exact nanoseconds (no scheduling latency exists in the bubble).",
+        ref="5.C10", note=STD + "No axioms. Real-world scheduling latency is outside the model (the property's '+ scheduling latency').",
+        technique="Coq timed invariant proof + fake-time differential correspondence"),
+    "C11": dict(
+        text="Full on the model: for every accepted trace of the unite machine the outputs are the concatenations of consecutive groups of whole input slices covering the input in order, groups consisting only of empty slices produce nothing, and every input slice of at least JoinSize elements is an output by itself (C11_unite_grouping, C11_unite_oversize_alone), with ticks anywhere, both modes. Tied to v2 unite by exact fake-time trace comparison on slice boundaries (including producer slices with spare capacity); boundaries monitored on the implementation.",
+        ref="5.C11", note=STD + "No axioms.",
+        technique="Coq grouping invariant over the pc-machine + fake-time differential correspondence"),
+    "C12": dict(
+        text="Full on the model: what was written is always the received sequence minus at most the element being sent, and exactly the received sequence once closed; the machine closes only on seeing the input closed with nothing pending; output times are sorted; it sleeps only after exactly Quantity writes of a batch and never beyond one Interval after the batch started (no sleep at all if the batch took an Interval or more); in an eager environment element j is written at exactly t0+floor(j/Quantity)*Interval (C12_upfront_timing). Tied to v2/limit by exact fake-time trace comparison; pass-through, closure, 'no extra throttling' (element j leaves by max(arrival, predecessor, element j-Q + Interval)) and up-front timing monitored.",
+        ref="5.C12", note=STD + "No axioms. Assumes time.Sleep never returns early.",
+        technique="Coq invariant proofs over a timed pc-machine + fake-time differential correspondence"),
     "C13": dict(
         text="Full, unbounded: C13_recalculate/optimize/flatten proved in Coq for all of int64 x uint64 x int64 about a Z model of Recalculate (both branches, big-integer path, representability check); the model is tied to the code by comparing the whole result on boundary-structured and random 64-bit triples on every run; the property clauses are also monitored directly on the implementation.",
         ref="5.C13, 6 (D1)", note=STD + "No axioms (Closed under the global context).",
